@@ -5,6 +5,8 @@
 (* blocks (those come from SeqGen.tla) :                                     *)
 (*   noasm   a contract without asm: "none", written {} ("empty"), written   *)
 (*           {"asm": null} ("null")                                          *)
+(*   sib     a second code-bearing sub-assembly next to the run-time one in the  *)
+(*           top-level .data (e.g. the creation code of a child contract)        *)
 (*   nest    levels of .data below the run-time assembly: 0, 1 (hex string   *)
 (*           entries), 2 (a nested assembly with its own .code and .data)    *)
 (*   tophex  a hex string entry next to the run-time assembly                *)
@@ -20,12 +22,12 @@
 EXTENDS Naturals, TLC
 
 Shapes == [noasm : {"none", "empty", "null"}, nest : 0..2, tophex : BOOLEAN, aux : BOOLEAN, src : BOOLEAN,
-           jt : {"none", "value", "field"}, md : BOOLEAN, two : BOOLEAN]
+           jt : {"none", "value", "field"}, md : BOOLEAN, two : BOOLEAN, sib : BOOLEAN]
 
 VARIABLE sh
 Init == sh \in Shapes
 Next == UNCHANGED sh
 Spec == Init /\ [][Next]_sh
 
-Emit == PrintT(<<"SH", sh.noasm, sh.nest, sh.tophex, sh.aux, sh.src, sh.jt, sh.md, sh.two>>)
+Emit == PrintT(<<"SH", sh.noasm, sh.nest, sh.tophex, sh.aux, sh.src, sh.jt, sh.md, sh.two, sh.sib>>)
 =============================================================================
